@@ -310,6 +310,8 @@ pub mod props {
     /// line-start flag is set after every newline written; a request argument (`Spaces`) never contains a newline, and its spaces
     /// and backslashes are escaped; backslash and dash in text are escaped
     #[cfg(feature = "docgen")]
+    #[verifier::spinoff_prover]
+    #[verifier::rlimit(40)]
     pub proof fn lemma_c16_byte(meta: Escape, ap: Apostrophes, c: u8, at_start: bool)
         ensures
             esc_byte(meta, ap, c, at_start).len() > 0,
@@ -336,6 +338,8 @@ pub mod props {
     /// C16 "every line starting with a control character is one of bpaf's own requests": a whole fragment of user text, whatever
     /// its bytes, never produces an output line that starts with `.` or `'`
     #[cfg(feature = "docgen")]
+    #[verifier::spinoff_prover]
+    #[verifier::rlimit(80)]
     pub proof fn lemma_c16_fragment(meta: Escape, ap: Apostrophes, bs: Seq<u8>, n: int, a: bool)
         requires body_meta(meta), 0 <= n <= bs.len(),
         ensures ({
